@@ -9,6 +9,16 @@
 (* of Filters.tla) with the recorded inputs, so the specification's state  *)
 (* (win, lout, navg, nout, ...) is its prediction and the ghosts (lastn,   *)
 (* since) are what the property section talks about.                       *)
+(*                                                                         *)
+(* An "ns" record is one call of the real NtimedFilter.Do together with    *)
+(* what the clock saw of it: q, the values its Epoch() reads returned, and *)
+(* ks, for every clock step that landed inside the call the number of      *)
+(* reads made before it.  It is replayed through the specification's own   *)
+(* actions NDoCall, NDoTest, NDoReset, NDoBody, with NStepInDo fired at    *)
+(* the recorded places (l advances when the call returns).  The ghosts of  *)
+(* the property section (since, amb, and from them nout.cands) are driven  *)
+(* by the recorded calls, steps and returns only.  The group's reference   *)
+(* runs (fresh filter, no clock step) come first and fill memo.            *)
 (*   monitor (FiltersTrace_mon.cfg): the clauses of C17 on the recorded    *)
 (*       outputs, using the ghosts and the recorded inputs only            *)
 (*   strict (FiltersTrace_strict.cfg): the recorded outputs / observable   *)
@@ -28,10 +38,13 @@ DistinctOnly == FALSE
 Clk0s == {}
 MaxEv == 0
 FilterAverage == 20
+Classes == {}
+StepAt == {}
+MaxInDo == 0
 
-VARIABLES cap, kcfg, pick, win, lout, lastn, navg, fepoch, clk, dep, nout, since, hist,
+VARIABLES cap, kcfg, pick, win, lout, lastn, navg, fepoch, clk, dep, nout, since, amb, pc, rd, stp, hist,
           l,     \* position in the trace
-          memo   \* Ntimed: samples since the last reset / clock step |-> output, per group
+          memo   \* Ntimed: sequence of samples seen since the last reset / clock step |-> output, per group
 INSTANCE Filters
 
 Trace == ndJsonDeserialize(TraceFile)
@@ -39,30 +52,51 @@ N == Len(Trace)
 Empty == [x \in {} |-> << >>]
 \* (own tuples: TLC cannot prime a tuple defined inside the instantiated module)
 LV == <<cap, kcfg, pick, win, lout, lastn>>
-NV == <<navg, fepoch, clk, dep, nout, since>>
+NV == <<navg, fepoch, clk, dep, nout, since, amb, pc, rd, stp>>
 
 TInit == l = 0 /\ hist = << >> /\ LIdle /\ NIdle /\ memo = Empty
 
+\* the next recorded clock step inside the call being replayed is due: its place
+\* (number of reads before it) is reached, or the specification makes no further read
+Due(e) ==
+  IF Len(stp) < Len(e.ks) THEN (e.ks[Len(stp) + 1] <= rd \/ pc = "body") ELSE FALSE
+
+\* the output function "samples seen since |-> output": filled by the first run
+\* that shows a sequence under an unambiguous reading (the references come first)
+Learn(cs, o) ==
+  IF Cardinality(cs) = 1
+  THEN LET c == CHOOSE x \in cs : TRUE
+       IN IF c \in DOMAIN memo THEN memo ELSE (c :> o) @@ memo
+  ELSE memo
+
+NDoReplay(e) ==
+  IF pc = "idle" THEN NDoCallCore /\ UNCHANGED <<l, memo>>
+  ELSE IF Due(e) THEN NStepInDoCore /\ UNCHANGED <<l, memo>>
+  ELSE IF pc = "test" THEN NDoTestCore /\ UNCHANGED <<l, memo>>
+  ELSE IF pc = "reset" THEN NDoResetCore /\ UNCHANGED <<l, memo>>
+  ELSE /\ NDoBodyCore(e.id, e.fl, e.fh)
+       /\ memo' = Learn(nout'.cands, e.o)
+       /\ l' = l + 1
+
 TNext ==
   /\ l < N
-  /\ l' = l + 1
   /\ UNCHANGED hist
   /\ LET e == Trace[l + 1] IN
-     CASE e.ev = "lnew"   -> LNew(e.cap, e.k) /\ UNCHANGED <<NV, memo>>
-       [] e.ev = "ls"     -> LSampleCore(e.off * e.sc, e.rtd) /\ UNCHANGED <<NV, memo>>
-       [] e.ev = "lr"     -> LResetCore /\ UNCHANGED <<NV, memo>>
-       [] e.ev = "ngroup" -> memo' = Empty /\ UNCHANGED <<LV, NV>>
-       [] e.ev = "nnew"   -> NNew(e.clk) /\ UNCHANGED <<LV, memo>>
-       [] e.ev = "ns"     -> /\ NSampleCore(e.id, e.fl, e.fh)
-                             /\ memo' = IF since' \in DOMAIN memo THEN memo ELSE (since' :> e.o) @@ memo
-                             /\ UNCHANGED LV
-       [] e.ev = "nr"     -> NResetCore /\ UNCHANGED <<LV, memo>>
-       [] e.ev = "ne"     -> NEpochCore /\ UNCHANGED <<LV, memo>>
+     IF e.ev = "ns" THEN NDoReplay(e) /\ UNCHANGED LV
+     ELSE
+     /\ l' = l + 1
+     /\ CASE e.ev = "lnew"   -> LNew(e.cap, e.k) /\ UNCHANGED <<NV, memo>>
+          [] e.ev = "ls"     -> LSampleCore(e.off * e.sc, e.rtd) /\ UNCHANGED <<NV, memo>>
+          [] e.ev = "lr"     -> LResetCore /\ UNCHANGED <<NV, memo>>
+          [] e.ev = "ngroup" -> memo' = Empty /\ UNCHANGED <<LV, NV>>
+          [] e.ev = "nnew"   -> NNew(e.clk) /\ UNCHANGED <<LV, memo>>
+          [] e.ev = "nr"     -> NResetCore /\ UNCHANGED <<LV, memo>>
+          [] e.ev = "ne"     -> NEpochCore /\ UNCHANGED <<LV, memo>>
 TSpec == TInit /\ [][TNext]_<<LV, NV, hist, l, memo>>
 
 R == Trace[l]
 IsLS == l > 0 /\ R.ev = "ls"
-IsNS == l > 0 /\ R.ev = "ns"
+IsNS == l > 0 /\ R.ev = "ns" /\ pc = "idle"      \* (pc # "idle": the next call is being replayed)
 
 \* ------------------------------------------------------------- monitor
 \* lucky packet: the returned value is the median offset of the k lowest-delay
@@ -74,13 +108,16 @@ RUnconf ==
   (IsLS /\ cap = 0) => R.out = Last(lastn).off
 \* Ntimed: raw offset (right sign, float rounding) while fewer than four
 \* samples have been seen since the last reset / clock step and whenever the
-\* sample certainly lies within the learned bounds
+\* sample certainly lies within the learned bounds - under every allowed reading
+\* of "seen since" (nout.cands; more than one only if a clock step landed inside a
+\* Do; R.inb is decided against the largest reading and holds for the smaller ones)
 RRawWhen ==
-  IsNS => ((Len(since) <= 3 \/ R.inb) => R.err <= R.tol)
+  IsNS => (((\A c \in nout.cands : Len(c) <= 3) \/ R.inb) => R.err <= R.tol)
 \* Ntimed: the output is a function of the samples seen since the last reset
-\* / clock step / creation (same samples since => bitwise the same output)
+\* / clock step / creation, under some allowed reading (same samples since =>
+\* bitwise the same output as the fresh filter that saw only them)
 RHistIndep ==
-  IsNS => memo[since] = R.o
+  IsNS => ((\A c \in nout.cands : c \in DOMAIN memo) => (\E c \in nout.cands : memo[c] = R.o))
 
 \* -------------------------------------------------------------- strict
 SLucky ==
@@ -92,8 +129,11 @@ SLReset ==
 SNtimed ==
   (IsNS /\ R.logok) => /\ R.br = nout.br
                        /\ nout.raw => R.err <= R.tol
+\* one Epoch() read for the test, one more inside the Reset it triggers
+SNReads ==
+  IsNS => Len(R.q) = nout.rd
 SNState ==
-  (l > 0 /\ R.ev \in {"ns", "nr", "ne"}) =>
+  (l > 0 /\ R.ev \in {"ns", "nr", "ne"} /\ pc = "idle") =>
      /\ R.clk = clk
      /\ R.nobs => (R.navg = navg /\ R.fep = fepoch)
 =============================================================================
